@@ -97,7 +97,7 @@ def c02e2e (args : List Sexp) : Verdict :=
   | none => .bad "parse"
   | some c =>
     let env := timeEnv
-    match c.container, classify 64 c.schema, buildCodec regLib 200 c.schema (some c.ty) false with
+    match c.container, classify 400 c.schema, buildCodec regLib 200 c.schema (some c.ty) false with
     | .list [.atom "container", .atom "unsplittable"], _, _ => .oracle "the file is not a well-formed sequence of header and blocks"
     | .list [.atom "container", hdr, .list blocks], some a, .ok codec =>
       match asBytes hdr with
